@@ -187,7 +187,7 @@ def backend_cases(res, tier, seed):
         srv.selected_device = dev
         srv.cmd_header = f'&{dev}='.encode()
         data = bytes(rng.getrandbits(8) for _ in range(rng.choice([0, 1, 8, 40, 200])))
-        kind = rng.choice(['ok', 'ack', 'error', 'garbage', 'empty', 'recv_timeout', 'connect_error', 'send_error', 'okinside', 'lower'])
+        kind = rng.choice(['ok', 'ack', 'error', 'garbage', 'empty', 'recv_timeout', 'connect_error', 'send_error', 'okinside', 'lower', 'binary'])
         plan = {}
         reply_tok = None
         if kind == 'ok':
@@ -204,6 +204,8 @@ def backend_cases(res, tier, seed):
             plan['reply'] = b'xxNOKAYx' if rng.random() < 0.5 else b'TACKLE'
         elif kind == 'lower':
             plan['reply'] = b'ok ack\n'
+        elif kind == 'binary':
+            plan['reply'] = rng.choice([b'OK\xff', b'\xb5b\x05\x01', b'\xc3\xa9 ACK', b'\x80'])
         elif kind == 'recv_timeout':
             plan['reply'] = real_socket.timeout
             reply_tok = 'ERR'
@@ -229,7 +231,9 @@ def backend_cases(res, tier, seed):
         cases.append(Case('gpsd-transmit', f'gpsdtx {C.hexs(dev.encode())} {C.hexs(data)} {reply_tok}', impl, desc, kind='gpsd/' + kind))
         if sent and sent[0] != expect_cmd:
             res.violation('gpsd _transmit: control-socket command is not "&" device "=" hex(data)', {'property': 'C12', 'input': desc, 'sent': C.hexs(sent[0])}, 'c12-gpsd-cmd')
-        want = kind in ('ok', 'ack', 'okinside') and (b'OK' in plan['reply'] or b'ACK' in plan['reply'])
+        want = kind in ('ok', 'ack', 'okinside', 'binary') and (b'OK' in plan['reply'] or b'ACK' in plan['reply'])
+        if str(r).startswith('!'):
+            want = False        # an exception is not a success report (non-UTF-8 reply: UnicodeDecodeError, not claimed by C12)
         if (r is True) != want:
             res.violation('gpsd _transmit: success reported without OK/ACK reply (or failure despite it)', {'property': 'C12', 'input': desc, 'result': str(r)}, f'c12-gpsd-ok|{kind}')
     return cases
